@@ -61,7 +61,7 @@ Fixpoint convert_fuel (f : nat) (s : bytes) : bytes :=
   end.
 Definition convert_template (s : bytes) : bytes := convert_fuel (S (length s)) s.
 
-(* ---------- decodeCompositParams (after the fix of F-C01-3) ---------- *)
+(* ---------- decodeCompositParams (after the fixes of F-C01-3 and F-C01-5) ---------- *)
 Inductive dres := DOk (names values : list bytes) | DPanic | DFuel.
 
 Definition cut_value (toskip value : bytes) : bytes * bytes :=
@@ -70,26 +70,35 @@ Definition cut_value (toskip value : bytes) : bytes * bytes :=
   | None => ([], [])
   end.
 
+(* pleft and pright: the first opening brace and the first closing brace from there on; a pattern
+   without that closing brace is literal text *)
+Definition braces_of (pattern : bytes) : option (nat * nat) :=
+  match index_of [LBRACE] pattern with
+  | None => None
+  | Some pleft =>
+    match index_of [RBRACE] (skipn pleft pattern) with
+    | None => None
+    | Some closing => Some (pleft, pleft + closing)
+    end
+  end.
+
+(* the literal branch: the value without the pattern when it ends with it, else the empty text *)
+Definition literal_value (value pattern : bytes) : bytes :=
+  if has_suffix pattern value then firstn (length value - length pattern) value else [].
+
 Fixpoint decode_composite (f : nat) (name value pattern : bytes) (names values : list bytes) : dres :=
   match f with
   | 0 => DFuel
   | S f =>
-    match index_of [LBRACE] pattern with
-    | None =>
-      if has_suffix pattern value
-      then DOk (names ++ [name]) (values ++ [firstn (length value - length pattern) value])
-      else DOk (names ++ [name]) (values ++ [[]])
-    | Some pleft =>
-      match index_of [RBRACE] pattern with
-      | None => DPanic                                   (* pattern[pleft+1:-1] *)
-      | Some pright =>
-        if pright <? S pleft then DPanic                 (* pattern[pleft+1:pright], pright below *)
-        else
-          decode_composite f (firstn (pright - S pleft) (skipn (S pleft) pattern))
-                           (snd (cut_value (firstn pleft pattern) value))
-                           (skipn (S pright) pattern)
-                           (names ++ [name]) (values ++ [fst (cut_value (firstn pleft pattern) value)])
-      end
+    match braces_of pattern with
+    | None => DOk (names ++ [name]) (values ++ [literal_value value pattern])
+    | Some (pleft, pright) =>
+      if pright <? S pleft then DPanic                 (* pattern[pleft+1:pright] is a checked slice *)
+      else
+        decode_composite f (firstn (pright - S pleft) (skipn (S pleft) pattern))
+                         (snd (cut_value (firstn pleft pattern) value))
+                         (skipn (S pright) pattern)
+                         (names ++ [name]) (values ++ [fst (cut_value (firstn pleft pattern) value)])
     end
   end.
 
@@ -107,9 +116,17 @@ Definition base_prefix (base : bytes) : bytes :=
 Definition handler_for (routes : list route) (m path : bytes) : option route :=
   find (fun r => bytes_eqb (upper (r_method r)) (upper m) && bytes_eqb (r_tpl r) path) routes.
 
+(* AddRoute: the template under which the handler is looked up; the root template joined to a base
+   path is the base path itself (fix of F-C01-4) *)
+Definition template_of (base full : bytes) : bytes :=
+  match trim_prefix (base_prefix base) full with
+  | [] => [SL]
+  | t => t
+  end.
+
 Definition record_of (base : bytes) (routes : list route) (r : route) : option (bytes * rvalue) :=
   let full := path_join base (r_tpl r) in
-  match handler_for routes (r_method r) (trim_prefix (base_prefix base) full) with
+  match handler_for routes (r_method r) (template_of base full) with
   | Some h => Some (convert_template full, (full, (r_id r, r_id h)))
   | None => None
   end.
